@@ -5,3 +5,4 @@ import Gen.Sigs
 import Gen.Align
 import Gen.Effects
 import Gen.Colors
+import Gen.Writers
